@@ -89,7 +89,7 @@ def gen_case(r, auto=None, profile=None):
                 hist.append(["adisable"])
                 on = False
             elif x < 0.95 and timed_ids:
-                hist.append(["setdur", r.choice(timed_ids), r.choice([0, 1, 2, 4, 8, 16])])
+                hist.append(["setdur", r.choice(timed_ids), r.choice([0, 1, 2, 4, 8, 16, -2])])
             else:
                 hist.append(["aenable"])
                 on = True
@@ -98,7 +98,7 @@ def gen_case(r, auto=None, profile=None):
             x = r.random()
             p_eng = {"continuous": 0.97, "gapped": 0.6, "chaotic": 0.5, "lazy": 0.25}[prof]
             if x < 0.06 and timed_ids:
-                hist.append(["setdur", r.choice(timed_ids), r.choice([0, 1, 2, 4, 8, 16])])
+                hist.append(["setdur", r.choice(timed_ids), r.choice([0, 1, 2, 4, 8, 16, -2])])
                 continue
             if prof == "chaotic" and x < 0.16:
                 hist.append(r.choice([["done"], ["ondisable"]]))
@@ -120,7 +120,7 @@ def gen_case(r, auto=None, profile=None):
                     if r.random() < 0.3:
                         hist.append(["engage", None, False])
                 elif z < 0.16 and timed_ids:
-                    hist.append(["setdur", r.choice(timed_ids), r.choice([0, 1, 2, 4, 8, 16])])
+                    hist.append(["setdur", r.choice(timed_ids), r.choice([0, 1, 2, 4, 8, 16, -2])])
             t += r.choice(steps)
             hist.append(["execute", t])
     return dict(n=n, first=first, default=default, states={str(k): v for k, v in states.items()},
@@ -530,6 +530,7 @@ def oracle(case, obs):
         return i != default and not must(i)
 
     requested = False        # engage() since the previous iteration
+    cancelled_req = False    # a request was withdrawn by done()/on_disable() and engage() has not been called since
     prev_exec = False        # is_executing after the previous operation
     pending = {}             # state -> entered and not yet called
     last = {}                # state -> (tm, stm, eng) of the previous call of the same entry
@@ -540,11 +541,13 @@ def oracle(case, obs):
     stopped_since = True     # stopped and not re-engaged
     entered_last = None      # the state most recently entered by next_state() and not yet called
     offc = False             # the history has left the usage contract K
+    default_linked = case["default"] is not None and any(v_["next"] == case["default"] for v_ in case["states"].values())
     mstopped = True          # done() ran and no regular / must_finish state has run since (the oracle's own view)
     dflt_fresh = True        # the default state, when it runs next, is newly entered (something else was entered / done() ran since)
     maxclk = -1
     run_tm = None            # tm of the previous state-function call of the current run (None after done())
-    nonneg_durs = all((v["dur"] or 0) >= 0 for v in st.values())
+    nonneg_durs = (all((v["dur"] or 0) >= 0 for v in st.values()) and all(op[2] >= 0 for op in case["hist"] if op[0] == "setdur")
+                   and all(v >= 0 for v in (case.get("predur") or {}).values()))
     for opi, (op, (evs, is_exec, cur)) in enumerate(zip(case["hist"], obs)):
         kind = op[0]
         errs = [e for e in evs if e[0] == "err"]
@@ -575,10 +578,11 @@ def oracle(case, obs):
                 if e[7] < maxclk:
                     off = True
                 maxclk = max(maxclk, e[7])
-            if e[0] == "enter" and default is not None and e[1] == default:
-                # an explicit transition into the default state: by a state function, by engage(initial_state=..), or because a
-                # timed state names the default state as its next_state (the default state then runs as the current state of an
-                # executing machine, which the properties do not talk about)
+            if e[0] == "enter" and default is not None and e[1] == default and (e[-1] > 0 or kind == "engage" or default_linked):
+                # an explicit transition into the default state: by a state function, by engage(initial_state=..), or -- in a
+                # machine where some timed state NAMES the default state as its next_state -- by that link (the default state then
+                # runs as the current state of an executing machine, which the properties do not talk about).  A transition the
+                # library makes on its own in a machine without such a link is judged like everything else.
                 off = True
             if e[0] in ("enter", "done") and e[-1] > 0 and not e[-2]:
                 off = True       # in-state action while the machine is not executing
@@ -596,6 +600,7 @@ def oracle(case, obs):
             if (not prev_exec or mstopped) and not requested:
                 fresh = ("any", op[1] if kind == "engage" and op[1] is not None else first)
             requested = True
+            cancelled_req = False
             stopped_since = False
         calls = [e for e in evs if e[0] == "call"]
         ndone = sum(1 for e in evs if e[0] == "done")
@@ -647,7 +652,9 @@ def oracle(case, obs):
                     mstopped = False
                 if not offc and lifecycle and seen_done and s != default:
                     out.append(("C13", "op %d %r: s%d ran after done() in the same on_iteration (the machine cycled)" % (opi, op, s)))
-                if is_iter and not requested and regular(s):
+                if is_iter and not requested and regular(s) and not (cancelled_req and offc):
+                    # (cancelled_req and offc: a request withdrawn by done() and, later, an in-state action on the stopped machine
+                    # -- outside the usage contract --: the library still honours the stale request there)
                     out.append(("C01", "op %d %r: regular state s%d ran without engage() since the previous iteration" % (opi, op, s)))
                     out.append(("C04", "op %d %r: engage() stopped being called outside a must_finish state, yet regular state s%d ran "
                                        "instead of the machine stopping through done()" % (opi, op, s)))
@@ -716,6 +723,8 @@ def oracle(case, obs):
                 out.append(("C04", "op %d %r: after done()/on_disable() is_executing=%s current_state=%r" % (opi, op, is_exec, cur)))
             has_state = False
             fresh = None
+            cancelled_req = cancelled_req or requested
+            requested = False        # "... until engage() is called AGAIN": a request made before the done() does not count
             if kind == "adisable":
                 latch = False
         if kind == "aiter" and latch and not is_exec:
@@ -1118,7 +1127,7 @@ def gen_chain(r, auto=False):
         hist.append(["done"])
     for _ in range(r.randrange(10, 45)):
         if r.random() < 0.05 and timed_ids:
-            hist.append(["setdur", r.choice(timed_ids), r.choice([0, 1, 2, 4, 8, 16])])
+            hist.append(["setdur", r.choice(timed_ids), r.choice([0, 1, 2, 4, 8, 16, -2])])
         t += r.choice(stepset)
         if auto:
             hist.append(["aiter", t])
